@@ -12,6 +12,7 @@ import sys
 import shutil
 
 VERIF = os.path.dirname(os.path.dirname(os.path.abspath(__file__)))
+REPO = os.environ.get("VERIF_REPO", "/repo")  # vp run --with-repo: a snapshot of the repository
 ENV = dict(os.environ, GOFLAGS="-mod=mod", GOPROXY="off", GOSUMDB="off", GOTOOLCHAIN="local")
 
 # (name, property, file, old, new)
@@ -85,27 +86,27 @@ def sh(cmd, cwd=None, timeout=3600):
 
 def main():
     want = sys.argv[1:]
-    rc, out = sh(["git", "-C", "/repo", "status", "--porcelain"])
+    rc, out = sh(["git", "-C", REPO, "status", "--porcelain"])
     if out.strip():
-        print("refusing: /repo working tree is not clean")
+        print("refusing: %s working tree is not clean" % REPO)
         return 2
     rows = []
     missed = 0
     for name, prop, f, old, new in M:
         if want and not any(w in name or w == prop for w in want):
             continue
-        path = os.path.join("/repo", f)
+        path = os.path.join(REPO, f)
         src = open(path).read()
         if src.count(old) != 1:
             rows.append((name, prop, "PATCH-DOES-NOT-APPLY (%d matches)" % src.count(old), ""))
             continue
         try:
             open(path, "w").write(src.replace(old, new))
-            rc, out = sh("go build ./... 2>&1 | tail -3", cwd="/repo")
+            rc, out = sh("go build ./... 2>&1 | tail -3", cwd=REPO)
             if out.strip():
                 rows.append((name, prop, "DOES-NOT-COMPILE", out.strip()[:120]))
                 continue
-            rc, out = sh("go test -vet=off -count=1 ./... 2>&1 | grep -c FAIL", cwd="/repo")
+            rc, out = sh("go test -vet=off -count=1 ./... 2>&1 | grep -c FAIL", cwd=REPO)
             suite = "suite-passes" if out.strip() == "0" else "suite-FAILS"
             rc, out = sh([os.path.join(VERIF, "check"), prop, "--tier", "quick"], cwd=VERIF)
             det = [l for l in out.splitlines() if l.startswith("  detail:")]
@@ -114,7 +115,7 @@ def main():
                 missed += 1
             rows.append((name, prop, verdict + " " + suite, det[0][10:150] if det else ""))
         finally:
-            sh(["git", "-C", "/repo", "checkout", "--", "."])
+            sh(["git", "-C", REPO, "checkout", "--", "."])
             shutil.rmtree(os.path.join(VERIF, "replays", prop), ignore_errors=True)
         print("%-36s %s %-28s %s" % rows[-1], flush=True)
     json.dump(rows, open(os.path.join(VERIF, "tools", "mutants_last.json" if want else "mutants_all.json"), "w"), indent=1)
